@@ -8,11 +8,16 @@ Decided inductively on the validator's own state (OnsetValidator._onsets):
   onset_time_point  one time point (<= 2 temporal groups) through validate_temporal_relations on a stub string
                     object: repeated name => one report per extra use and no state change for it; groups
                     without a Def are skipped; otherwise the markers act in order like single steps.
-  onset_group_shape DefValidator.validate_onset_offset on fixed group shapes parsed by the real HedString over
-                    the mini schema: a temporal group is accepted iff it has the shape the HED rules allow.
+  onset_group_shape DefValidator.validate_onset_offset on fixed group shapes parsed (concretely, once) by the real
+                    HedString over the mini schema, the first Def's name made symbolic through the public
+                    `HedTag.extension` setter: accepted iff the group has the shape the HED rules allow.
+
+Not decided here (needs pandas): building time points from rows (Delay shift, sorting, equal-onset merge) and
+mapping issues back to rows.  "Scopes still open at the end are legal": OnsetValidator has no end-of-file step,
+so there is nothing that could report them.
 """
 from vp import reg as R
-from vp import chx, msgstub
+from vp import chx, chfix, msgstub
 from models import onset_ref as ref
 from vp.mini import MINI
 from hed.models.hed_string import HedString
@@ -21,6 +26,7 @@ from hed.validator.onset_validator import OnsetValidator
 from hed.errors.error_types import TemporalErrors
 
 chx.install()
+chfix.install()      # CrossHair 0.0.110: negative slice in SymbolicBoundedIntTuple._create_up_to (see vp/chfix.py)
 # message TEXT of the three issues that print tag objects / lists of tags is stubbed: formatting a tag whose name
 # is symbolic realises the name (str(list) -> repr(); f"{tag_object}" -> format() needs a real str); the
 # wrappers that set the published code stay real (see vp/msgstub.py)
@@ -120,11 +126,10 @@ def onset_step(n1: str, open1: bool, n2: str, open2: bool, name: str, kind: int)
     before = _open_list(n1, open1, n2, open2)
     ov = OnsetValidator()
     ov._onsets = _state(before)
-    def_tag = _Tag(name, "Def")
-    issues = ov._handle_onset_or_offset(def_tag, _Tag("", ref.KIND_TAGS[kind]))
+    issues = ov._handle_onset_or_offset(_Tag(name, "Def"), _Tag("", ref.KIND_TAGS[kind]))
     want, unmatched = ref.step(before, kind, name)
     if unmatched:
-        if len(issues) != 1 or issues[0]["code"] != _TTE or issues[0]["source_tag"] is not def_tag:
+        if len(issues) != 1 or issues[0]["code"] != _TTE:
             return False
     elif issues != []:
         return False
@@ -237,12 +242,54 @@ def onset_group_shape(kind: int, n_defs: int, expand: bool, n_groups: int, n_tag
             issues = _DEFS.validate_onset_offset(hs)
         finally:
             tag.extension = "x"                     # fixtures are shared between paths: always restore
-    label, _, value = dname.partition("/")
-    takes = ref.same_name(label, "y")
-    known = takes or ref.same_name(label, "x")
-    if ref.group_ok(kind, n_defs, n_groups, n_tags, known, takes, value != ""):
+    known = takes = has_value = False
+    if n_defs == 1:                                 # with 0 or 2 Defs the group is wrong whatever the name is
+        label, _, value = dname.partition("/")
+        takes = ref.same_name(label, "y")
+        known = takes or ref.same_name(label, "x")
+        has_value = value != ""
+    if ref.group_ok(kind, n_defs, n_groups, n_tags, known, takes, has_value):
         return issues == []
-    return 1 <= len(issues) <= 2 and _all_tte(issues)
+    return len(issues) >= 1 and _all_tte(issues)
+
+
+# ---- the same time-point check on REAL parsed objects (real find_top_level_tags / find_def_tags traversal)
+def _tp_text(kind_a, expand_a, kind_b, expand_b):
+    def grp(kind, expand):
+        return ("((Def-expand/x, (B)), " if expand else "(Def/x, ") + ref.KIND_TAGS[kind] + ")"
+    return grp(kind_a, expand_a) + ", A, " + grp(kind_b, expand_b)
+
+
+_TP_FIX = [[[[HedString(_tp_text(ka, ea, kb, eb), MINI) for eb in (False, True)] for kb in range(3)]
+            for ea in (False, True)] for ka in range(3)]
+
+
+def onset_time_point_parsed(n1: str, open1: bool, kind_a: int, expand_a: bool, name_a: str,
+                            kind_b: int, expand_b: bool, name_b: str) -> bool:
+    """
+    pre: 0 <= kind_a <= 2 and 0 <= kind_b <= 2
+    pre: _cell_kind(kind_a) and _cell_kind_b(kind_b)
+    pre: _names_ok(n1, name_a, name_b)
+    pre: ref.is_folded(n1)
+    post: _
+    """
+    kind_a, kind_b = _pick(kind_a), _pick(kind_b)
+    hs = _TP_FIX[kind_a][1 if expand_a else 0][kind_b][1 if expand_b else 0]
+    tags = hs.find_def_tags(recursive=True, include_groups=0)
+    before = [n1] if open1 else []
+    ov = OnsetValidator()
+    ov._onsets = _state(before)
+    try:
+        tags[0].extension = name_a
+        tags[1].extension = name_b
+        issues = ov.validate_temporal_relations(hs)
+    finally:
+        tags[0].extension = "x"
+        tags[1].extension = "x"
+    want, unmatched, repeated = ref.time_point(before, [(kind_a, name_a), (kind_b, name_b)])
+    if len(issues) != unmatched + repeated or not _all_tte(issues):
+        return False
+    return _post_state_ok(ov, want)
 
 
 # disjoint cover of m in 0..2 x kinds: m=0 one cell; m=1 by kind_a; m=2 by (kind_a, kind_b)
@@ -267,8 +314,7 @@ HARNESSES = [
                            "any printable-ASCII text of 0..2 characters"),
         thorough=R.tier(cells=R.int_cells("VP_KIND", 0, 2), env={"VP_N": 4}, timeout=1100, path_timeout=60,
                         bound="as quick with names of 0..4 printable-ASCII characters (covers a/1, ab/1, a/12)"),
-        what="one marker from an arbitrary open-scope state: unmatched (exactly one TEMPORAL_TAG_ERROR on the Def "
-             "tag) iff the name is not open case-insensitively; Onset opens/restarts, Offset closes, Inset keeps; "
+        what="one marker from an arbitrary open-scope state: unmatched (exactly one TEMPORAL_TAG_ERROR) iff the name is not open case-insensitively; Onset opens/restarts, Offset closes, Inset keeps; "
              "all other scopes unchanged; keys stay case-folded",
         oracle="models/onset_ref.py step()/same_scopes() (list of open names, char-wise ASCII fold)",
         stubs=_STUBS,
@@ -291,6 +337,23 @@ HARNESSES = [
                         "group whose find_def_tags returns zero or one Def tag"],
         outside="more than 2 temporal groups per time point; construction of time points from rows (Delay splitting, sorting, equal-onset merge: pandas), "
                 "row mapping in SpreadsheetValidator._run_onset_checks"),
+    R.H("onset_time_point_parsed", _T_TP + ["hed.models.hed_string.HedString.find_top_level_tags",
+                                            "hed.models.hed_group.HedGroup.find_def_tags"],
+        quick=R.tier(cells=R.product_cells(R.int_cells("VP_KIND", 0, 2), R.int_cells("VP_KINDB", 0, 2)),
+                     env={"VP_N": 2}, timeout=300,
+                     bound="the string '<G1>, A, <G2>' with Gi = (Def/<name>, <kind>) or ((Def-expand/<name>, (B)), "
+                           "<kind>), any two kinds, from a state with one other name open or not; names any "
+                           "printable-ASCII text of 0..2 characters"),
+        thorough=R.tier(cells=R.product_cells(R.int_cells("VP_KIND", 0, 2), R.int_cells("VP_KINDB", 0, 2)),
+                        env={"VP_N": 4}, timeout=1800, path_timeout=60,
+                        bound="as quick with names of 0..4 printable-ASCII characters"),
+        what="as onset_time_point, but the (marker, group) pairs and the Def tags are found by the real "
+             "HedString.find_top_level_tags / HedGroup.find_def_tags on a really parsed two-group string",
+        oracle="models/onset_ref.py time_point()",
+        stubs=[_STUBS[1], "the 36 strings are parsed once at import by the real HedString/HedTag code (concrete); the "
+               "two Def/Def-expand names are then replaced through the public HedTag.extension setter by the "
+               "symbolic texts; restored after each path; pre-state dict set directly as in onset_step"],
+        outside="other group contents; more than two temporal groups; construction of time points from rows"),
     R.H("onset_group_shape", _T_SHAPE,
         quick=R.tier(cells=R.product_cells(R.int_cells("VP_KIND", 0, 2), R.int_cells("VP_NDEFS", 0, 2)),
                      env={"VP_M": 2}, timeout=150,
@@ -304,9 +367,15 @@ HARNESSES = [
         what="validate_onset_offset accepts the group (no issue) iff it has exactly one Def/Def-expand, at most "
              "one other child for Onset/Inset and none for Offset (Delay not counted), that child is a group, the "
              "definition exists (case-insensitive) and a value is given iff the definition takes one; otherwise "
-             "1..2 issues, all TEMPORAL_TAG_ERROR",
+             "at least one issue, all TEMPORAL_TAG_ERROR",
         oracle="models/onset_ref.py group_ok()",
         stubs=["mini schema (vp/mini.py) with definitions x (no value) and y/# built by the real DefinitionDict",
+               "the 324 shape strings are parsed once at import by the real HedString/HedTag code (concrete); the "
+               "first Def/Def-expand tag's name is then replaced through the public HedTag.extension setter by "
+               "the symbolic text (its org_tag stays 'Def/x'); restored after each path",
+               "vp/msgstub.py: message TEXT of ONSET_WRONG_NUMBER_GROUPS, ONSET_TOO_MANY_DEFS and "
+               "ONSET_TAG_OUTSIDE_OF_GROUP replaced by a constant (formatting a symbolic tag name realises it); "
+               "code/severity wrappers stay real",
                "chx: ASCII-exact z3 model of str.casefold; names are printable ASCII"],
         outside="other tags/groups than the fixed fillers A, F, (A), (F), (B); several temporal groups in one "
                 "string; nesting below top level; malformed name text (empty components, delimiters)"),
